@@ -219,6 +219,9 @@ theorem C06_no_5xx_of_its_own (T : Nat) (st : RState) (i : In)
         | error code =>
           rw [extract_fresh_raised hfr hr]
           exact ⟨m, rfl, by simp [respondExtract, errResp, Outcome.code, hr]⟩
+        | junk =>
+          rw [extract_fresh_junk hfr hr]
+          exact ⟨m, rfl, by simp [respondExtract, errResp, Outcome.code, hr]⟩
         | ok a =>
           rw [extract_fresh hfr hr] at h5 ⊢
           refine ⟨m, ?_, ?_⟩
@@ -316,6 +319,19 @@ theorem C06_handler_error_drops_rendering (T : Nat) (st : RState) (i : In) (m : 
   rw [step_pass hp, extract_fresh_raised hf hr]
   exact ⟨rfl, rfl, delIf_lookup_self _ _⟩
 
+/-- **C06 (a handler that returns no message leaves no rendering).** A request for the beginning on
+which the handler returns something that is not a message (`None`, a string: `render` of a resource
+written against `interfaces.Resource` directly) is answered 5.00; the handler was invoked once with
+`m`; and nothing stays kept under the block key — the rendering made for an earlier request for the
+beginning went when this one arrived. -/
+theorem C06_handler_nonmessage_drops_rendering (T : Nat) (st : RState) (i : In) (m : Msg)
+    (hp : Passes T st i m) (hf : isFresh m = true) (hr : i.render m = .junk) :
+    (step T st i).2.resp = errResp INTERNAL_SERVER_ERROR none ∧
+    (step T st i).2.seen = some m ∧
+    alookup (blockKey m) (step T st i).1.cache.items = none := by
+  rw [step_pass hp, extract_fresh_junk hf hr]
+  exact ⟨rfl, rfl, delIf_lookup_self _ _⟩
+
 /-- **C06 (beyond the end → 4.00).** If the governing block starts at or beyond the end of the
 representation the request is answered from, the answer is 4.00 Bad Request, for a fresh
 rendering as well as for a kept one. -/
@@ -326,7 +342,7 @@ theorem C06_beyond_end_4_00 (T : Nat) (st : RState) (i : In) (m : Msg) (a : Resp
     (step T st i).2.resp = errResp BAD_REQUEST none ∧
     (step T st i).2.seen = if isFresh m then some m else none := by
   rw [step_pass hp, extract_of_source hsrc hchunk]
-  simp only [sliceOf, extractBlock_none hout, respondExtract]
+  simp only [sliceOf, extractBlock_none hout (start_pos_of_chunking hchunk hout), respondExtract]
   refine ⟨?_, ?_⟩ <;> first | rfl | trivial
 
 /-- **C06 (later block without rendering → 4.08).** A request for a later block (`num ≠ 0`) under
@@ -448,6 +464,7 @@ theorem C06_completed_upload_reaches_handler (T : Nat) (st : RState) (i : In) (b
   cases hr : i.render m with
   | ok a => rw [extract_fresh hf hr]; split <;> rfl
   | error code => rw [extract_fresh_raised hf hr]; rfl
+  | junk => rw [extract_fresh_junk hf hr]; rfl
 
 /-- **C06 (observable resources).** `ObservableResource._render_to_pipe` sets up an observation
 only for a request with Observe: 0 that carries no Block1 option and asks for the beginning of the
@@ -922,6 +939,7 @@ theorem C06_overlap_handler_sees_concatenation (T : Nat) (pre : List Ev) (a : Ar
     cases hr : (inOf a).render m with
     | ok r => simp [inOf] at hr
     | error code => rw [extract_fresh_raised hfresh hr]; rfl
+    | junk => simp [inOf] at hr
   exact C06_handler_sees_concatenation T (arrivals pre) (inOf a) m ha hs
 
 /-- **C06 (overlapping handlers: later blocks come from the rendering of the latest request for the
